@@ -1733,6 +1733,33 @@ fn summarise(c: CaseOut) -> Summary {
 	}
 }
 
+/// Encrypted forms are re-encrypted on every run (fresh ephemeral keys), so the bytes differ between
+/// runs: a problem key is *stable* if it recurs in two further runs, *intermittent* if it recurs in at
+/// least one of six further runs (reported with that suffix), and a machinery error if it never does.
+fn settle_encrypted(want: &BTreeSet<String>, rerun: &mut dyn FnMut() -> BTreeSet<String>) -> Result<(BTreeSet<String>, BTreeSet<String>), String> {
+	let mut runs: Vec<BTreeSet<String>> = vec![];
+	for _ in 0..2 {
+		runs.push(rerun());
+	}
+	let stable: BTreeSet<String> = want.iter().filter(|k| runs.iter().all(|r| r.contains(*k))).cloned().collect();
+	let rest: BTreeSet<String> = want.difference(&stable).cloned().collect();
+	if rest.is_empty() {
+		return Ok((stable, BTreeSet::new()));
+	}
+	for _ in 0..4 {
+		runs.push(rerun());
+	}
+	let mut intermittent = BTreeSet::new();
+	for k in rest.iter() {
+		if runs.iter().any(|r| r.contains(k)) {
+			intermittent.insert(k.clone());
+		} else {
+			return Err(format!("verdict {} did not recur in six further runs", k));
+		}
+	}
+	Ok((stable, intermittent))
+}
+
 fn keys_of(p: &[Problem]) -> BTreeSet<String> {
 	p.iter().map(|x| x.key.clone()).collect()
 }
@@ -2034,15 +2061,16 @@ pub fn run(args: &[String]) -> i32 {
 		confirmed.extend(e.problems.iter().map(|p| p.key.clone()));
 		let s = build_slate(&reps[i], &fx);
 		let want = keys_of(&e.problems);
-		for _ in 0..2 {
-			let again = keys_of(&check_encrypted(&s, "", &cx, true).problems);
-			if again != want {
-				return rep.finish(Some(format!("non-deterministic verdict (encrypted forms) {}: {:?} vs {:?}", describe_ix(&reps[i]), again, want)));
-			}
-		}
+		let (stable, intermittent) = match settle_encrypted(&want, &mut || keys_of(&check_encrypted(&s, "", &cx, true).problems)) {
+			Ok(x) => x,
+			Err(m) => return rep.finish(Some(format!("non-deterministic verdict (encrypted forms) {}: {}", describe_ix(&reps[i]), m))),
+		};
 		for p in e.problems.iter() {
+			if !stable.contains(&p.key) && !intermittent.contains(&p.key) {
+				continue;
+			}
 			rep.add_finding(Finding {
-				key: p.key.clone(),
+				key: if intermittent.contains(&p.key) { format!("{}/depends-on-ciphertext", p.key) } else { p.key.clone() },
 				what: format!("{} — slate {}", p.what, describe_ix(&reps[i])),
 				replay: json!({"kind": "slate-enc", "key": p.key, "ix": ix_to_json(&reps[i]), "slate": describe_ix(&reps[i])}),
 			});
@@ -2057,17 +2085,15 @@ pub fn run(args: &[String]) -> i32 {
 		if !c.problems.iter().all(|p| confirmed.contains(&p.key)) {
 			confirmed.extend(c.problems.iter().map(|p| p.key.clone()));
 			let want = keys_of(&c.problems);
-			for _ in 0..2 {
-				let again = keys_of(&check_encrypted(s, src, &cx, true).problems);
-				if again != want {
-					return Err(format!("non-deterministic verdict (encrypted forms) {}: {:?} vs {:?}", payload, again, want));
-				}
-			}
+			let (stable, intermittent) = settle_encrypted(&want, &mut || keys_of(&check_encrypted(s, src, &cx, true).problems)).map_err(|m| format!("non-deterministic verdict (encrypted forms) {}: {}", payload, m))?;
 			for p in c.problems.iter() {
+				if !stable.contains(&p.key) && !intermittent.contains(&p.key) {
+					continue;
+				}
 				let mut pl = payload.clone();
 				pl["key"] = json!(p.key);
 				rep.add_finding(Finding {
-					key: p.key.clone(),
+					key: if intermittent.contains(&p.key) { format!("{}/depends-on-ciphertext", p.key) } else { p.key.clone() },
 					what: format!("{} — {}", p.what, payload),
 					replay: pl,
 				});
